@@ -340,7 +340,7 @@ VMLoop:
 			if bp == 0 {
 				bp = vm.curFrame.fn.NumLocals + 1
 			}
-			if numRet == 1 {
+			if numRet == 1 && !vm.curFrame.discardResult {
 				vm.stack[bp-1] = vm.stack[vm.sp-1]
 			} else {
 				vm.stack[bp-1] = Undefined
@@ -764,6 +764,7 @@ func (vm *VM) initCurrentFrame() {
 
 	vm.curFrame.errHandlers = nil
 	vm.curFrame.basePointer = 0
+	vm.curFrame.discardResult = false
 }
 
 func (vm *VM) clearCurrentFrame() {
@@ -1127,8 +1128,13 @@ func (vm *VM) xOpCallCompiled(cfunc *CompiledFunction, numArgs, flags int) error
 	if cfunc == vm.curFrame.fn { // recursion
 		nextOp := vm.curInsts[vm.ip+2+1]
 
-		if nextOp == OpReturn ||
-			(nextOp == OpPop && OpReturn == vm.curInsts[vm.ip+2+2]) {
+		isDiscarded := nextOp == OpPop && OpReturn == vm.curInsts[vm.ip+2+2]
+		if nextOp == OpReturn || isDiscarded {
+			if isDiscarded {
+				// result of the self call is popped by the caller, the
+				// reused frame must not leak it as its own return value.
+				vm.curFrame.discardResult = true
+			}
 			curBp := vm.curFrame.basePointer
 			copy(vm.stack[curBp:curBp+numLocals], vm.stack[basePointer:])
 			newSp := vm.sp - numArgs - 1
@@ -1153,6 +1159,7 @@ func (vm *VM) xOpCallCompiled(cfunc *CompiledFunction, numArgs, flags int) error
 	frame.freeVars = cfunc.Free
 	frame.errHandlers = nil
 	frame.basePointer = basePointer
+	frame.discardResult = false
 
 	vm.curFrame.ip = vm.ip + 2
 	vm.curInsts = cfunc.Instructions
@@ -1493,6 +1500,9 @@ type frame struct {
 	ip          int
 	basePointer int
 	errHandlers *errHandlers
+	// discardResult is set when the frame is reused for a self call whose
+	// result is discarded by the caller (CALL; POP; RETURN).
+	discardResult bool
 }
 
 func getFrameSourcePos(frame *frame) parser.Pos {
